@@ -530,13 +530,28 @@ func (a *OrderAnalysis) propagate(f *Fn, g *Graph, sd taintSeed, seeds *[]taintS
 			if !ok || f.RootObj(rs.X) != sd.target {
 				return true
 			}
-			vid, ok := rs.Value.(*ast.Ident)
-			if !ok {
+			// the element of the iteration: the value variable, or container[key] for the key variable
+			var vobj, kobj types.Object
+			if vid, ok := rs.Value.(*ast.Ident); ok && vid.Name != "_" {
+				vobj = f.ObjOf(vid)
+			}
+			if kid, ok := rs.Key.(*ast.Ident); ok && kid.Name != "_" {
+				kobj = f.ObjOf(kid)
+			}
+			if vobj == nil && kobj == nil {
 				return true
 			}
-			vobj := f.ObjOf(vid)
+			isElem := func(e ast.Expr) bool {
+				if vobj != nil && f.Denotes(e, vobj) {
+					return true
+				}
+				if ix, ok := ast.Unparen(f.Resolve(e)).(*ast.IndexExpr); ok && kobj != nil {
+					return f.Denotes(ix.Index, kobj) && f.SameExpr(ix.X, rs.X)
+				}
+				return false
+			}
 			sorts := func(m ast.Node) bool {
-				ok, c := f.sanitisesWith(m, func(e ast.Expr) bool { return f.ObjOf(e) == vobj })
+				ok, c := f.sanitisesWith(m, isElem)
 				if ok && c != nil {
 					dup := false
 					for _, u := range a.SortSanitisers {
